@@ -302,6 +302,18 @@ impl Report {
         for i in sample_indices(n) {
             ps.samples.push(part.describe(i));
         }
+        // Determinism self-check: a fixed sample of cases is executed twice more; the canonical
+        // observable outcome must be identical. A divergence is a machinery error, not a verdict.
+        if !capped.load(Ordering::Relaxed) {
+            for i in sample_indices(n) {
+                let a = part.run(i, false);
+                let b = part.run(i, false);
+                ps.counters.entry("determinism_replays".into()).and_modify(|c| *c += 1).or_insert(1);
+                if a.outcome != b.outcome || a.viols.len() != b.viols.len() {
+                    self.machinery_errors.push(format!("nondeterminism: part {} case {} ({}) gave different outcomes on replay", ps.name, i, truncate(&part.describe(i), 120)));
+                }
+            }
+        }
         ps.wall_s = t0.elapsed().as_secs_f64();
         found.sort_by_key(|f| f.0);
         for (idx, v, cnt) in found {
@@ -369,6 +381,7 @@ impl Report {
         let mut depth_completed: Option<u64> = None;
         let mut capped = false;
         let mut found: Vec<(Vec<u16>, Viol, u64)> = vec![];
+        let mut replay_sample: Vec<Vec<u16>> = vec![];
         for depth in 0..=max_depth {
             if frontier.is_empty() {
                 depth_completed = Some(max_depth as u64);
@@ -449,6 +462,12 @@ impl Report {
                 if ps.samples.len() < 3 && h.len() == depth && depth > 0 && it.idx % 7 == 3 {
                     ps.samples.push(scn.describe(h));
                 }
+                if h.len() == depth && depth > 0 && (it.idx == 0 || it.idx == n / 2 || it.idx + 1 == n) {
+                    if replay_sample.len() >= 6 {
+                        replay_sample.remove(0);
+                    }
+                    replay_sample.push(h.clone());
+                }
             }
             if !level_complete {
                 capped = true;
@@ -468,6 +487,24 @@ impl Report {
                 next_frontier.len()
             );
             frontier = next_frontier;
+        }
+        // Determinism self-check on a few explored histories (run twice, compare outcome + digest).
+        for h in replay_sample.iter() {
+            let mut outs = vec![];
+            for _ in 0..2 {
+                let mut run = scn.setup();
+                for &c in h.iter() {
+                    scn.apply(&mut run, c as usize);
+                }
+                let d = scn.digest(&mut run);
+                scn.finish(&mut run);
+                let r = scn.result(run);
+                outs.push((d, r.outcome, r.viols.len()));
+            }
+            ps.counters.entry("determinism_replays".into()).and_modify(|c| *c += 1).or_insert(1);
+            if outs[0] != outs[1] {
+                self.machinery_errors.push(format!("nondeterminism: scenario {} history {:?} gave different digests/outcomes on replay", ps.name, h));
+            }
         }
         ps.cases = ps.executed;
         ps.states = seen.len() as u64;
